@@ -2,6 +2,7 @@
 from props.util import *
 
 needs_release = False
+aux_big = True   # also run the auxiliary big-period family (periods 2500 / 4100, two ring wraps) through the bit-exact tie
 rule = ("for each of the 22 indicators and each period in the tier's list (quick: 1..16, 31..33, 63, 64; thorough: 1..64 "
         "plus sampled up to 4096) one case of >= 3*period+3 feeding ops mixing ordinary values with injected NaN, +-inf, +-f64::MAX, "
         "subnormals, signed zeros and inconsistent bars, with reset / clone / serde / Display+Debug probes at random "
